@@ -81,7 +81,12 @@ def quotedBody (q : Char) : Str → Option (Str × Str)
   | [c] => if c == q then some ([c], []) else none
   | c :: c2 :: cs =>
     if c == q then
-      if c2 == q then (quotedBody q cs).map fun (b, r) => (c :: c2 :: b, r)
+      if c2 == q then
+        -- a doubled quote continues the text; if the text then never closes, the regular expression backs off and the
+        -- first of the two quotes is the closing one (three quotes and a letter: the empty text, then a lone quote)
+        match quotedBody q cs with
+        | some (b, r) => some (c :: c2 :: b, r)
+        | none => some ([c], c2 :: cs)
       else some ([c], c2 :: cs)
     else (quotedBody q (c2 :: cs)).map fun (b, r) => (c :: b, r)
 
